@@ -8,6 +8,7 @@ import (
 	"strings"
 	"sync"
 
+	"github.com/kardiachain/go-kardia/kai/state"
 	"github.com/kardiachain/go-kardia/kvm"
 	"github.com/kardiachain/go-kardia/lib/common"
 	"github.com/kardiachain/go-kardia/mainchain/blockchain"
@@ -56,6 +57,11 @@ func blockMenu() []menuTx {
 			menuTx{n + ":big-gas-limit", s, 0, "0", "4000000", big.NewInt(0), "eoa"},
 		)
 	}
+	// collision family: creations whose derived address is occupied in the genesis (executed, fail, nonce must advance)
+	m = append(m,
+		menuTx{"collider-code:create-into-occupied", 2, 0, "1", "300000", one, "create"},
+		menuTx{"collider-nonce:create-into-occupied", 3, 0, "0", "300000", gwei, "create"},
+	)
 	return m
 }
 
@@ -112,7 +118,7 @@ func buildMenuTx(fork int, m menuTx) builtTx {
 	} else {
 		tx = types.NewTransaction(nonce, *to, value, gas, m.Price, data)
 	}
-	signed, err := types.SignTx(signerFor(fork), tx, keys[m.Sender])
+	signed, err := types.SignTx(signerFor(fork), tx, senderKey(m.Sender))
 	if err != nil {
 		panic(err)
 	}
@@ -306,6 +312,13 @@ func execBlock(c blockCase) *blockRun {
 		}
 		pos++
 	}
+	for i := range txs {
+		for j := i + 1; j < len(txs); j++ {
+			if b.accepted[i] && b.accepted[j] && txs[i].Hash() == txs[j].Hash() {
+				b.fail("tx-executed-at-most-once", fmt.Sprintf("the same signed transaction (positions %d and %d) was executed twice in one block", i, j))
+			}
+		}
+	}
 	nrej := 0
 	for i, a := range b.accepted {
 		if !a {
@@ -371,7 +384,7 @@ func execBlock(c blockCase) *blockRun {
 	}
 	// nonces and coinbase
 	fees := new(big.Int)
-	perSender := make([]uint64, nSenders)
+	perSender := make([]uint64, len(senders))
 	k = 0
 	for i, a := range b.accepted {
 		if a {
@@ -381,7 +394,7 @@ func execBlock(c blockCase) *blockRun {
 			k++
 		}
 	}
-	for s := 0; s < nSenders; s++ {
+	for s := range senders {
 		if n0, n1 := bw.base.get(senders[s]).Nonce, snap.get(senders[s]).Nonce; n1 != n0+perSender[s] {
 			b.fail("sender-nonce-plus-one", fmt.Sprintf("sender %s nonce %d -> %d with %d of its transactions executed", senderNames[s], n0, n1, perSender[s]))
 		}
@@ -503,4 +516,63 @@ func gasLimitsFor(fork int, idxs []int) []uint64 {
 	}
 	sort.Slice(out, func(i, j int) bool { return out[i] > out[j] })
 	return out
+}
+
+// checkConsecutive: block h with [tx], then block h+1 on the resulting state with the SAME signed transaction again.
+// If the first block executed it, the second block must refuse it: no receipt, and the state after the second block is
+// bit-identical to the state after an EMPTY second block (not charged twice). Real commitBlock for all three runs.
+func checkConsecutive(fork, idx int) (executedFirst bool, finds []finding) {
+	mt := bw.menus[fork][idx]
+	name := mt.m.Name
+	fail := func(oracle, what string) {
+		finds = append(finds, finding{fmt.Sprintf("C09|path=commitBlock|blocks=same-tx-in-consecutive-blocks|oracle=%s", oracle),
+			fmt.Sprintf("%s :: %s tx=%q", what, forkNames[fork], name)})
+	}
+	run := func(st *state.StateDB, height uint64, txs types.Transactions) (info *types.BlockInfo, ok bool) {
+		defer func() {
+			if p := recover(); p != nil {
+				fail("no-panic", fmt.Sprintf("commitBlock panicked: %v", p))
+				ok = false
+			}
+		}()
+		bo := blockchain.NewBlockOperations(&recLogger{}, w.bc, nil, nil, w.staking)
+		_, info, err := bo.VerifC09CommitBlock(st, txs, header(height, hBig), w.lastCommit(), nil)
+		if err != nil {
+			fail("commit-succeeds", "commitBlock returned "+err.Error())
+			return nil, false
+		}
+		return info, true
+	}
+	r.Add("commitBlock_runs", 3)
+	h := forkHeight(fork)
+	st := w.freshState()
+	info1, ok := run(st, h, types.Transactions{mt.tx})
+	if !ok {
+		return false, finds
+	}
+	st.IntermediateRoot(true)
+	if len(info1.Receipts) == 0 {
+		return false, finds
+	}
+	withTx, empty := st.Copy(), st.Copy()
+	info2, ok := run(withTx, h+1, types.Transactions{mt.tx})
+	if !ok {
+		return true, finds
+	}
+	if _, ok = run(empty, h+1, nil); !ok {
+		return true, finds
+	}
+	sa, e1 := observe(withTx, nil)
+	sb, e2 := observe(empty, nil)
+	if e1 != nil || e2 != nil {
+		fail("state-readable", fmt.Sprint(e1, e2))
+		return true, finds
+	}
+	if len(info2.Receipts) != 0 {
+		fail("executed-tx-not-executed-again", fmt.Sprintf("the transaction executed in block %d (gas %d) was executed again in block %d (gas %d)", h, info1.Receipts[0].GasUsed, h+1, info2.Receipts[0].GasUsed))
+	}
+	if sa.root != sb.root || len(diff(sa, sb)) != 0 {
+		fail("executed-tx-not-charged-again", "offering the executed transaction again changed the state (empty second block -> second block with it): "+describeDiff(sb, sa))
+	}
+	return true, finds
 }
